@@ -23,8 +23,8 @@ let coqz_of_z (v : ZZ.t) : z =
   if ZZ.sign v = 0 then Z0 else if ZZ.sign v > 0 then Zpos (pos_of_z v) else Zneg (pos_of_z (ZZ.neg v))
 let coqz_of_string s = coqz_of_z (ZZ.of_string s)
 let z_of_coqz (v : z) : ZZ.t = match v with Z0 -> ZZ.zero | Zpos p -> z_of_pos p | Zneg p -> ZZ.neg (z_of_pos p)
-let rec nat_of_int i : nat = if i <= 0 then O else S (nat_of_int (i - 1))
-let rec int_of_nat (x : nat) : int = match x with O -> 0 | S y -> 1 + int_of_nat y
+let nat_of_int i : nat = let rec go i acc = if i <= 0 then acc else go (i - 1) (S acc) in go i O
+let int_of_nat (x : nat) : int = let rec go x acc = match x with O -> acc | S y -> go y (acc + 1) in go x 0
 
 let byte_tab : byte array = Array.init 256 (fun i -> byte_of_N (n_of_int i))
 let byte_idx : (byte, int) Hashtbl.t =
